@@ -32,6 +32,10 @@ type c28Hop struct {
 	ConsEg  uint16
 	MAC     [6]byte
 	PeerHop bool
+	// not on the wire: the SegID accumulator the hop field's MAC was computed with (beta chain of the segment) and
+	// whether the AS entry carries the detachable EPIC extension
+	Beta    uint16
+	HasEpic bool
 }
 
 // c28Seg is one path segment of a forwarding path (hops in travel order).
@@ -110,10 +114,11 @@ func (u c28Use) build() c28Part {
 	hopOf := func(i int) c28Hop {
 		e := es[i]
 		hf := e.HopEntry.HopField
-		h := c28Hop{IA: e.Local}
+		h := c28Hop{IA: e.Local, Beta: c28Beta(u.s, i), HasEpic: e.UnsignedExtensions.EpicDetached != nil}
 		if i == u.idx && u.peer >= 0 {
 			hf = e.PeerEntries[u.peer].HopField
 			h.PeerHop = true
+			h.Beta = c28Beta(u.s, i+1) // scion-header.rst, Peering Links: chained to beta_{i+1}
 		}
 		h.Exp, h.ConsIn, h.ConsEg, h.MAC = hf.ExpTime, hf.ConsIngress, hf.ConsEgress, hf.MAC
 		return h
